@@ -2,7 +2,10 @@
    machines over the L1 stimuli.  One step = one stimulus followed by everything the library's goroutines
    do until quiescence.  Three machines (cooked SUB with contexts, raw XSUB, PUB = XPUB) and one wrapper
    `pubsub_model` whose first stimulus `SCall 0 (CSetOpt 0 OTtl kind [])` (written by the harness in front of
-   every history; never an API call) selects the machine.  No proofs here. *)
+   every history; never an API call) selects the machine.  The SUB machine takes a flag `fixed`: false = sub.go as
+   found (READQ-LEN < 0 panics in make(chan); READQ-LEN 0 wedges the socket), true = the repaired code (READQ-LEN < 0
+   is ErrBadValue; the receiver's last enqueue attempt is non-blocking, so a zero-length queue drops what no parked
+   Recv takes).  No proofs here. *)
 From MV Require Export Lib.Proto.
 Open Scope N_scope.
 
@@ -113,19 +116,20 @@ Definition dl_ctx (ths : list rthread) (body : bytes) (cx : N * sctx) : N * sctx
 Definition dl_handed (ths : list rthread) (body : bytes) (cx : N * sctx) : list N :=
   let '(c, x) := cx in
   if wants x body then match blocked_on ths c with [th] => [th_id th] | _ => [] end else [].
-(* nobody parked and a zero-length queue: `c.recvQ <- m` blocks with the socket lock held *)
-Definition dl_wedge (ths : list rthread) (body : bytes) (cx : N * sctx) : bool :=
+(* nobody parked and a zero-length queue.  As found: `c.recvQ <- m` blocks with the socket lock held.
+   Repaired: `select { case c.recvQ <- m: default: m.Free() }` drops the message (dl_ctx leaves the context alone) *)
+Definition dl_wedge (fixed : bool) (ths : list rthread) (body : bytes) (cx : N * sctx) : bool :=
   let '(c, x) := cx in
-  wants x body && (x_qlen x =? 0) && match blocked_on ths c with [] => true | _ => false end.
+  negb fixed && wants x body && (x_qlen x =? 0) && match blocked_on ths c with [] => true | _ => false end.
 (* several parked RecvMsg calls on one context: which one gets it is the runtime's choice *)
 Definition dl_race (ths : list rthread) (body : bytes) (cx : N * sctx) : bool :=
   let '(c, x) := cx in
   wants x body && match blocked_on ths c with _ :: _ :: _ => true | _ => false end.
 
-Definition sb_deliver (s : sstate) (body : bytes) : sstate :=
+Definition sb_deliver (fixed : bool) (s : sstate) (body : bytes) : sstate :=
   let ths := sb_threads s in
   let handed := flat_map (dl_handed ths body) (sb_ctxs s) in
-  let wedge := existsb (dl_wedge ths body) (sb_ctxs s) in
+  let wedge := existsb (dl_wedge fixed ths body) (sb_ctxs s) in
   (* on a wedge, the contexts visited earlier in Go's map order got the message, the later ones did not *)
   let amb := existsb (dl_race ths body) (sb_ctxs s)
              || (wedge && (1 <? qlen (filter (fun cx => wants (snd cx) body) (sb_ctxs s)))) in
@@ -151,7 +155,7 @@ Definition sb_locks (k : call) : bool :=
   | _ => true
   end.
 
-Definition sb_call (s : sstate) (t : N) (k : call) : sstate :=
+Definition sb_call (fixed : bool) (s : sstate) (t : N) (k : call) : sstate :=
   if sb_wedged s && sb_locks k then sb_park s t else
   match k with
   | CSend _ _ _ => sb_emit s (ORet t (RErr EProtoOp))
@@ -175,7 +179,8 @@ Definition sb_call (s : sstate) (t : N) (k : call) : sstate :=
     | Some x =>
       match o with
       | OReadQLen =>
-        if (v <? 0)%Z then sb_emit s (ORet t (RErr EPanic))          (* make(chan *Message, v): "makechan: size out of range" *)
+        (* as found: make(chan *Message, v) panics with "makechan: size out of range"; repaired: `ok && v >= 0` *)
+        if (v <? 0)%Z then sb_emit s (ORet t (RErr (if fixed then EBadValue else EPanic)))
         else sb_emit (sb_set_ctx s c (with_qlen x (Z.to_N v))) (ORet t ROk)   (* the old queue and its messages are abandoned *)
       | ORecvDeadline => sb_emit (sb_set_ctx s c (with_exp x (ms_of v))) (ORet t ROk)
       | OSubscribe => sb_emit (sb_set_ctx s c (with_subs_q x (subscribe (x_subs x) arg) (x_q x))) (ORet t ROk)
@@ -213,9 +218,9 @@ Definition expire_threads (ths : list rthread) (until : N) : list rthread * list
   (rest, map (fun th => ORet (th_id th) (RErr ERecvTimeout)) fired,
    existsb (fun th => match th_due th with Some d => until <? d + ptol | None => false end) fired || existsb (near until) rest).
 
-Definition sb_step_raw (s : sstate) (st : stim) : sstate :=
+Definition sb_step_raw (fixed : bool) (s : sstate) (st : stim) : sstate :=
   match st with
-  | SCall t k => sb_call s t k
+  | SCall t k => sb_call fixed s t k
   | SAddPipe p =>
     if sb_wedged s then sb_set_ambig s true      (* AddPipe itself would block on the mutex *)
     else sb_set_pipes s (kset p (negb (sb_closed s)) (sb_pipes s))
@@ -223,7 +228,7 @@ Definition sb_step_raw (s : sstate) (st : stim) : sstate :=
   | SDeliver p body =>
     if negb (pipe_up (sb_pipes s) p) then sb_emit s (ONotTaken p)
     else if sb_wedged s then sb_set_ambig s true
-    else sb_deliver s body
+    else sb_deliver fixed s body
   | SHold _ _ | SRelease _ _ => s
   | SPass until =>
     let '(rest, os, amb) := expire_threads (sb_threads s) until in
@@ -234,8 +239,8 @@ Definition sb_step_raw (s : sstate) (st : stim) : sstate :=
   end.
 
 Definition sb_clear (s : sstate) : sstate := sb_with s (sb_ctxs s) (sb_threads s) [].
-Definition sb_step (s : sstate) (st : stim) : sstate * list obs :=
-  let s := sb_step_raw (sb_clear s) st in (s, rev (sb_out s)).
+Definition sb_step (fixed : bool) (s : sstate) (st : stim) : sstate * list obs :=
+  let s := sb_step_raw fixed (sb_clear s) st in (s, rev (sb_out s)).
 Definition sb_blocked (s : sstate) : list N := map th_id (sb_threads s) ++ sb_stuck s.
 
 (* ================================================================================================ *)
@@ -417,7 +422,7 @@ Inductive ustate := U0 | USub (s : sstate) | UXSub (s : xstate) | UPub (s : psta
 Definition kind_of (st : stim) : option Z :=
   match st with SCall 0 (CSetOpt 0 OTtl k []) => Some k | _ => None end.
 
-Definition u_step (u : ustate) (st : stim) : ustate * list obs :=
+Definition u_step (fixed : bool) (u : ustate) (st : stim) : ustate * list obs :=
   match u with
   | U0 =>
     match kind_of st with
@@ -425,7 +430,7 @@ Definition u_step (u : ustate) (st : stim) : ustate * list obs :=
                   else if (k =? KPub)%Z || (k =? KXPub)%Z then UPub pb_init else UBad), [])
     | None => (UBad, [ONotTaken (2 ^ 32)])
     end
-  | USub s => let '(s', os) := sb_step s st in (USub s', os)
+  | USub s => let '(s', os) := sb_step fixed s st in (USub s', os)
   | UXSub s => let '(s', os) := xs_step s st in (UXSub s', os)
   | UPub s => let '(s', os) := pb_step s st in (UPub s', os)
   | UBad => (UBad, [ONotTaken (2 ^ 32)])     (* a history without a kind never agrees *)
@@ -435,6 +440,6 @@ Definition u_blocked (u : ustate) : list N :=
 Definition u_ambig (u : ustate) : bool :=
   match u with USub s => sb_ambig s | UXSub s => xs_ambig s | _ => false end.
 
-Definition pubsub_model : model :=
-  {| m_state := ustate; m_step := u_step; m_blocked := u_blocked; m_ambiguous := u_ambig |}.
+Definition pubsub_model (fixed : bool) : model :=
+  {| m_state := ustate; m_step := u_step fixed; m_blocked := u_blocked; m_ambiguous := u_ambig |}.
 Definition pubsub_init : ustate := U0.
